@@ -35,6 +35,7 @@ func runC08(c *Ctx, r *Rec) {
 		return
 	}
 	info := cr.info
+	shapeLints(c, r, fileFuncs(c, "agent", cr.n))
 	rankD := findDispatcher(c, cr, true)
 	cmpD := findDispatcher(c, cr, false)
 	if rankD == nil || cmpD == nil {
